@@ -1140,10 +1140,15 @@ class NLDFNumInt(_NLDFMixin, CiderNumInt):
         cond = cond or self.mol != mol
         cond = cond or self.nldfgen.plan.nspin != nspin
         if cond:
-            self.nldfgen = self.nldf_init.initialize_nldf_generator(
+            # finish the new generator before it replaces the old one: if building it
+            # or setting its coordinates is interrupted, the next call must rebuild
+            # rather than find a generator without coordinates
+            self.nldfgen = None
+            nldfgen = self.nldf_init.initialize_nldf_generator(
                 mol, grids.grids_indexer, nspin
             )
-            self.nldfgen.interpolator.set_coords(grids.coords)
+            nldfgen.interpolator.set_coords(grids.coords)
+            self.nldfgen = nldfgen
         super().initialize_feature_generators(mol, grids, nspin)
         self.grids = grids
 
